@@ -1,4 +1,4 @@
-use anyhow::Result;
+use anyhow::{bail, Result};
 use futures::{channel::mpsc, SinkExt};
 
 pub mod pubsub;
@@ -7,22 +7,6 @@ pub mod reqrep;
 pub enum Socket<T, E> {
     Pubsub(pubsub::Socket<T, E>),
     Reqrep(reqrep::Socket<E>),
-}
-
-impl<T, E> Socket<T, E> {
-    fn unwrap_pubsub(self) -> pubsub::Socket<T, E> {
-        match self {
-            Self::Pubsub(s) => s,
-            _ => panic!("Attempted to unwrap non-pubsub socket"),
-        }
-    }
-
-    fn unwrap_reqrep(self) -> reqrep::Socket<E> {
-        match self {
-            Self::Reqrep(s) => s,
-            _ => panic!("Attempted to unwrap non-reqrep socket"),
-        }
-    }
 }
 
 pub enum Sender<T, E> {
@@ -40,10 +24,27 @@ impl<T, E> Clone for Sender<T, E> {
 }
 
 impl<T, E> Sender<T, E> {
-    pub async fn send(&mut self, sock: Socket<T, E>) -> Result<()> {
+    /// Whether the role requested by a registration frame fits this topic's kind
+    pub fn accepts(&self, frame: &selium_protocol::Frame) -> bool {
+        use selium_protocol::Frame;
+
         match self {
-            Self::Pubsub(ref mut s) => s.send(sock.unwrap_pubsub()).await?,
-            Self::ReqRep(ref mut s) => s.send(sock.unwrap_reqrep()).await?,
+            Self::Pubsub(_) => matches!(
+                frame,
+                Frame::RegisterPublisher(_) | Frame::RegisterSubscriber(_)
+            ),
+            Self::ReqRep(_) => matches!(
+                frame,
+                Frame::RegisterReplier(_) | Frame::RegisterRequestor(_)
+            ),
+        }
+    }
+
+    pub async fn send(&mut self, sock: Socket<T, E>) -> Result<()> {
+        match (self, sock) {
+            (Self::Pubsub(ref mut s), Socket::Pubsub(sock)) => s.send(sock).await?,
+            (Self::ReqRep(ref mut s), Socket::Reqrep(sock)) => s.send(sock).await?,
+            _ => bail!("Socket does not match the topic's messaging pattern"),
         }
 
         Ok(())
